@@ -43,11 +43,112 @@ def gen_box(rng, n, exact, l1box=False):
     return lb, ub
 
 
+PYTH = [(3, 4, 5), (4, 3, 5), (5, 12, 13), (12, 5, 13), (8, 15, 17), (7, 24, 25), (1, 0, 1), (0, 1, 1),
+        (20, 21, 29), (0, 0, 0)]
+
+
+def gen_cplx(rng, exact):
+    """cl1s / cl1v: complex ℓ1 prox on a real vector of (re, im) pairs."""
+    n = rng.choice([0, 1, 1, 2, 3, 4])
+    γ = (2.0 ** rng.randint(-3, 3)) if exact else abs(rnd_val(rng, False)) + 1e-6
+    vector = rng.random() < 0.5
+    if vector:
+        lam = [rng.choice([0.0, abs(rnd_val(rng, exact))]) for _ in range(n)]
+        if rng.random() < 0.15:
+            lam = []                                   # replaced by ones in the real code
+    else:
+        lam = [rng.choice([0.0, abs(rnd_val(rng, exact)), abs(rnd_val(rng, exact))])] * n
+    z = []
+    for i in range(n):
+        li = (lam[i] if lam else 1.0) if vector else lam[i]
+        k = rng.random()
+        if exact:
+            a, b, c = rng.choice(PYTH)
+            sc = rng.choice([1, -1]) * 2.0 ** rng.randint(-3, 2)
+            re, im = a * sc, b * sc * rng.choice([1, -1])
+            if k < 0.4 and c and li:
+                # tie exactly on the threshold |z| = γλ (or just on either side)
+                m = γ * li / c * rng.choice([1, 1, 1, 2, 0.5])
+                re, im = a * m * rng.choice([1, -1]), b * m * rng.choice([1, -1])
+        else:
+            re, im = rnd_val(rng, False), rnd_val(rng, False)
+            if k < 0.3 and li:
+                # magnitude close to the threshold
+                ang = rng.uniform(0, 2 * math.pi)
+                m = γ * li * (1 + rng.choice([0, 1e-16, -1e-16, 1e-9, -1e-9, 1e-3, -1e-3]))
+                re, im = m * math.cos(ang), m * math.sin(ang)
+            elif k < 0.4:
+                re, im = rng.choice([(0.0, im), (re, 0.0), (0.0, 0.0)])
+        z += [re, im]
+    if vector:
+        return f'cl1v {vec2p(lam)} {f2h(γ)} {vec2p(z)}'
+    return f'cl1s {f2h(lam[0] if lam else abs(rnd_val(rng, exact)))} {f2h(γ)} {vec2p(z)}'
+
+
+def householder(v):
+    """Exact rational orthogonal matrix I − 2vvᵀ/(vᵀv)."""
+    n = len(v)
+    vv = sum(Fr(a) * a for a in v)
+    if vv == 0:
+        return [[Fr(int(i == j)) for j in range(n)] for i in range(n)]
+    return [[Fr(int(i == j)) - 2 * Fr(v[i]) * v[j] / vv for j in range(n)] for i in range(n)]
+
+
+def gen_nuc(rng, exact):
+    """nuc: NuclearNorm::prox on a small matrix (column-major), both constructors."""
+    mode = rng.choice([0, 1, 1, 1])
+    r = rng.choice([0, 1, 1, 2, 2, 3, 3, 4, 4])
+    c = rng.choice([0, 1, 1, 2, 2, 3, 3, 4, 4])
+    if mode == 1 and r * c == 0 and rng.random() < 0.7:
+        r, c = max(r, 1), max(c, 1)
+    k = min(r, c)
+    γ = (2.0 ** rng.randint(-3, 3)) if exact else abs(rnd_val(rng, False)) + 1e-6
+    lam = rng.choice([0.0, 1.0, abs(rnd_val(rng, exact)), abs(rnd_val(rng, exact)) + 2.0 ** -4])
+    A = [[0.0] * c for _ in range(r)]
+    shape = rng.choice(['diag', 'rank1', 'orth', 'orth', 'rand', 'rand', 'zero', 'repeat'])
+    t = γ * lam
+    if shape == 'diag':
+        for i in range(k):
+            d = rnd_val(rng, exact)
+            if rng.random() < 0.3:
+                d = rng.choice([1, -1]) * t * rng.choice([1, 1, 2, 0.5])      # σ = γλ exactly
+            A[i][i] = d
+        if rng.random() < 0.3 and k:                    # a permuted / rectangular placement
+            rng.shuffle(A)
+    elif shape == 'rank1' and k:
+        pa = [rng.choice([-2, -1, 0, 1, 2, 3, 4]) * 0.5 for _ in range(r)]
+        pb = [rng.choice([-2, -1, 0, 1, 2, 3, 4]) * 0.5 for _ in range(c)]
+        if r == 2 and rng.random() < 0.5:
+            pa = [3.0, 4.0]
+        if c == 2 and rng.random() < 0.5:
+            pb = [-12.0, 5.0]
+        A = [[pa[i] * pb[j] for j in range(c)] for i in range(r)]
+    elif shape in ('orth', 'repeat') and k:
+        # A = Q1 · diag(s) · Q2ᵀ with exact rational orthogonal factors, rounded to doubles
+        Q1 = householder([rng.randint(-3, 3) for _ in range(r)])
+        Q2 = householder([rng.randint(-3, 3) for _ in range(c)])
+        sv = [Fr(abs(rnd_val(rng, True))) for _ in range(k)]
+        if shape == 'repeat' and k > 1:
+            sv[1] = sv[0]
+        if rng.random() < 0.4 and math.isfinite(t):
+            sv[rng.randrange(k)] = Fr(t)                # a singular value (nearly) on the threshold
+        A = [[float(sum(Q1[i][l] * sv[l] * Q2[j][l] for l in range(k))) for j in range(c)]
+             for i in range(r)]
+    elif shape == 'rand':
+        A = [[rnd_val(rng, exact) for _ in range(c)] for _ in range(r)]
+    flat = [A[i][j] for j in range(c) for i in range(r)]
+    return f'nuc {mode} {f2h(lam)} {f2h(γ)} {r} {c} {vec2p(flat)}'
+
+
 def gen_case(rng):
     exact = rng.random() < 0.4
     n = rng.choice([0, 1, 1, 2, 3, 4, 6])
     kind = rng.choice(['pgs', 'pgs', 'pgs', 'inact', 'inact', 'pmult', 'proj', 'pstep', 'l1s', 'l1v',
-                       'unc'])
+                       'unc', 'cl1', 'cl1', 'nuc', 'nuc'])
+    if kind == 'cl1':
+        return gen_cplx(rng, exact)
+    if kind == 'nuc':
+        return gen_nuc(rng, exact)
     γ = (2.0 ** rng.randint(-4, 3)) if exact else abs(rnd_val(rng, False)) + 1e-6
     x = [rnd_val(rng, exact) for _ in range(n)]
     g = [rnd_val(rng, exact) for _ in range(n)]
@@ -151,16 +252,252 @@ def tol(*mags):
     return 8 * EPS * m
 
 
+
+# ---------------------------------------------------------------- helpers for complex ℓ1 / nuclear norm
+
+def hp_sqrt(q, bits=160):
+    """√q for a non-negative Fraction, as a Fraction with relative error < 2^-bits."""
+    if q <= 0:
+        return Fr(0)
+    num, den = q.numerator, q.denominator
+    # √(num/den) = √(num·den)/den; scale so that the integer square root keeps `bits` bits
+    x = num * den
+    sh = max(0, bits - x.bit_length() // 2 + 1)
+    return Fr(math.isqrt(x << (2 * sh)), den << sh)
+
+
+def jacobi_svd(A):
+    """One-sided (Hestenes) Jacobi SVD of a small dense matrix given as list of rows (floats).
+    Returns (cols, V, σ): the rotated columns a_j = σ_j u_j (so A = Σ_j a_j v_jᵀ), the right
+    singular vectors (columns of V, as list of columns) and σ_j = ‖a_j‖, sorted non-increasing.
+    Pure Python (the checks run without numpy); independent of Eigen."""
+    r = len(A)
+    c = len(A[0]) if r else 0
+    if r == 0 or c == 0:
+        return [], [], []
+    if r < c:
+        cols, V, sg = jacobi_svd([[A[i][j] for i in range(r)] for j in range(c)])
+        # A = (Aᵀ)ᵀ = Σ_j v_j a_jᵀ: swap roles; new a_j = σ_j·(old v_j), new v_j = old a_j/σ_j
+        ncols, nV = [], []
+        for a, v, sj in zip(cols, V, sg):
+            ncols.append([sj * x for x in v])
+            nV.append([x / sj for x in a] if sj > 0 else [0.0] * len(a))
+        return ncols, nV, sg
+    a = [[A[i][j] for i in range(r)] for j in range(c)]          # columns
+    V = [[float(i == j) for i in range(c)] for j in range(c)]    # columns of V
+    for _sweep in range(60):
+        rot = False
+        for p in range(c - 1):
+            for q in range(p + 1, c):
+                al = math.fsum(x * x for x in a[p])
+                be = math.fsum(x * x for x in a[q])
+                ga = math.fsum(x * y for x, y in zip(a[p], a[q]))
+                if ga == 0 or abs(ga) <= 1e-17 * math.sqrt(al * be):
+                    continue
+                rot = True
+                ze = (be - al) / (2 * ga)
+                t = math.copysign(1.0, ze) / (abs(ze) + math.hypot(1.0, ze))
+                cs = 1 / math.hypot(1.0, t)
+                sn = cs * t
+                a[p], a[q] = ([cs * x - sn * y for x, y in zip(a[p], a[q])],
+                              [sn * x + cs * y for x, y in zip(a[p], a[q])])
+                V[p], V[q] = ([cs * x - sn * y for x, y in zip(V[p], V[q])],
+                              [sn * x + cs * y for x, y in zip(V[p], V[q])])
+        if not rot:
+            break
+    sg = [math.sqrt(math.fsum(x * x for x in col)) for col in a]
+    order = sorted(range(c), key=lambda j: -sg[j])
+    return [a[j] for j in order], [V[j] for j in order], [sg[j] for j in order]
+
+
+def nuc_norm(M):
+    return math.fsum(jacobi_svd(M)[2])
+
+
+def mat_of(flat, r, c):
+    return [[flat[i + j * r] for j in range(c)] for i in range(r)]
+
+
+KEY_NUC_DYN = 'C15-NuclearNorm-dynamic-ctor-no-UV-eigen-3.4.0'
+KEY_CPLX_COMPILE = 'C15-L1NormComplex-prox-does-not-compile'
+
+
+def monitor_cplx(kind, t, o_line):
+    if ' # ' not in o_line:
+        return f'unexpected output {o_line[:60]!r}'
+    main, tail = o_line.split(' # ')
+    o = T(main)
+    hs = T(tail)
+    if kind == 'cl1s':
+        lam0 = t.flt(); γ = t.flt(); v = t.vec(); n = len(v) // 2; lam = [lam0] * n
+    else:
+        lam = t.vec(); γ = t.flt(); v = t.vec(); n = len(v) // 2
+        if not lam:
+            lam = [1.0] * n
+    out1 = o.vec(); out2 = o.vec(); h1 = hs.flt(); h2 = hs.flt()
+    if len(out1) != 2 * n or len(out2) != 2 * n:
+        return 'output size mismatch'
+    if [f2h(x) for x in out1] != [f2h(x) for x in out2] or f2h(h1) != f2h(h2):
+        return ('the real-vector overload (pairs reinterpreted as complex) and the complex overload '
+                f'disagree: {out1!r} / {out2!r}, h {h1!r} / {h2!r}')
+    hexact = Fr(0)
+    for i in range(n):
+        a, b = Fr(v[2 * i]), Fr(v[2 * i + 1])
+        tt = Fr(γ) * Fr(lam[i])
+        mag2 = a * a + b * b
+        if mag2 <= tt * tt:
+            s = (Fr(0), Fr(0))
+        else:
+            f = 1 - tt / hp_sqrt(mag2)
+            s = (a * f, b * f)
+        e = tol(v[2 * i], v[2 * i + 1], tt)
+        for j in (0, 1):
+            got = out1[2 * i + j]
+            if not math.isfinite(got) or abs(Fr(got) - s[j]) > e:
+                return (f'complex soft-threshold [{i}].{"re" if j == 0 else "im"} = {got!r} is not the minimiser '
+                        f'of λ|u| + |u − v|²/(2γ): exact {float(s[j])!r} (v = ({v[2 * i]!r}, {v[2 * i + 1]!r}), '
+                        f'γλ = {float(tt)!r}, |Δ| > {e:.3g})')
+        # optimality condition on the returned point itself
+        s1, s2 = Fr(out1[2 * i]), Fr(out1[2 * i + 1])
+        if s1 == 0 and s2 == 0:
+            if mag2 > tt * tt and hp_sqrt(mag2) - tt > e:
+                return (f'complex soft-threshold [{i}] returned 0 but |v| = {float(hp_sqrt(mag2))!r} > γλ = '
+                        f'{float(tt)!r}: 0 ∉ argmin')
+        else:
+            ns = hp_sqrt(s1 * s1 + s2 * s2)
+            # stationarity: v − s = γλ · s/|s|
+            r1 = (a - s1) * ns - tt * s1
+            r2 = (b - s2) * ns - tt * s2
+            if max(abs(r1), abs(r2)) > 4 * e * max(ns, hp_sqrt(mag2)):
+                return (f'complex soft-threshold [{i}] = ({out1[2 * i]!r}, {out1[2 * i + 1]!r}) violates the '
+                        f'optimality condition v − s = γλ·s/|s| (v = ({v[2 * i]!r}, {v[2 * i + 1]!r}), γλ = {float(tt)!r})')
+        hexact += Fr(lam[i]) * hp_sqrt(s1 * s1 + s2 * s2)
+    # h is computed with hypot by Eigen's complex cwiseAbs: compared with a few-ulp tolerance
+    if not math.isfinite(h1) or abs(Fr(h1) - hexact) > 16 * (n + 1) * EPS * max(float(hexact), 1e-300):
+        return f'returned h = {h1!r}, exact Σ λ_i|out_i| = {float(hexact)!r}'
+    return None
+
+
+def monitor_nuc(op, t, o_line):
+    mode = t.nat(); lam = t.flt(); γ = t.flt(); r = t.nat(); c = t.nat(); flat = t.vec()
+    if o_line.startswith('crash') or o_line in ('exception', 'pipe-failed'):
+        if mode == 0 and lam != 0:
+            return (f'NuclearNorm(λ) (constructor without pre-allocation) + prox: the real code crashed '
+                    f'({o_line}) — BDCSVD default-constructed without ComputeThinU|ComputeThinV (Eigen < 3.4.1 '
+                    f'branch), matrixU()/matrixV() are empty', KEY_NUC_DYN)
+        return f'real code crashed: {o_line}'
+    main, _, tail = o_line.partition(' # ')
+    o = T(main)
+    tag = o.tok()
+    A = mat_of(flat, r, c)
+    scale = max([abs(x) for x in flat] + [1e-300])
+    if tag == 'Z':
+        value = o.flt(); out = o.vec()
+        if lam != 0:
+            return 'early exit taken although λ ≠ 0'
+        if value != 0 or [f2h(x) for x in out] != [f2h(x) for x in flat]:
+            return f'λ = 0: prox must be the identity with value 0, got value {value!r}, out {out!r}'
+        return None
+    if tag != 'S':
+        return f'unexpected output {o_line[:60]!r}'
+    sv = o.vec(); value = o.flt(); out = o.vec()
+    tl = T(tail)
+    uv = tl.nat(); sig = tl.vec()
+    if uv != 1:
+        if mode == 0:
+            return ('NuclearNorm(λ) (constructor without pre-allocation): the SVD object computed no U / V '
+                    '(Eigen < 3.4.1 branch), prox reads unallocated factors', KEY_NUC_DYN)
+        return 'SVD object holds no U / V'
+    k = min(r, c)
+    if len(sv) != k or len(sig) != k or len(out) != r * c:
+        return 'output size mismatch'
+    if lam == 0:
+        return 'λ = 0 but no early exit'
+    tt = Fr(γ) * Fr(lam)
+    # (1) oracle contract, checked against an independent SVD: σ sorted non-increasing, ≥ 0, equal to
+    #     the singular values of the input
+    cols, V, sg = jacobi_svd(A)
+    rel = 1e-10
+    if any(not math.isfinite(x) for x in sig + sv + out + [value]):
+        return f'non-finite output: σ={sig!r} sv={sv!r} value={value!r}'
+    if any(sig[i] < sig[i + 1] for i in range(k - 1)) or any(x < 0 for x in sig):
+        return f'SVD oracle contract: σ = {sig!r} not sorted non-increasing ≥ 0'
+    if any(abs(sig[i] - sg[i]) > rel * scale for i in range(k)):
+        return f'SVD oracle contract: σ = {sig!r} but the input has singular values {sg!r}'
+    # (2) thresholding statement on the σ the real code saw
+    for i in range(k):
+        ex = max(Fr(sig[i]) - tt, Fr(0))
+        if abs(Fr(sv[i]) - ex) > tol(sig[i], tt):
+            return f'singular_values[{i}] = {sv[i]!r}, exact max(σ − γλ, 0) = {float(ex)!r}'
+    # (3) out = Σ_j u_j max(σ_j − γλ, 0) v_jᵀ, from the independent SVD of the input
+    exp = [[0.0] * c for _ in range(r)]
+    for a, v, sj in zip(cols, V, sg):
+        f = max(sj - float(tt), 0.0)
+        if f > 0 and sj > 0:
+            w = f / sj
+            for i in range(r):
+                for j in range(c):
+                    exp[i][j] += a[i] * w * v[j]
+    O = mat_of(out, r, c)
+    for i in range(r):
+        for j in range(c):
+            if abs(O[i][j] - exp[i][j]) > rel * scale:
+                return (f'out[{i},{j}] = {O[i][j]!r} but the matrix with singular values max(σ − γλ, 0) on the '
+                        f'singular vectors of the input has {exp[i][j]!r} (γλ = {float(tt)!r}, σ = {sg!r})')
+    # (3b) closed forms in exact rationals: (generalised) diagonal and rank-one inputs
+    nz = [(i, j) for i in range(r) for j in range(c) if A[i][j] != 0]
+    if len({i for i, _ in nz}) == len(nz) == len({j for _, j in nz}):
+        for i in range(r):
+            for j in range(c):
+                d = Fr(A[i][j])
+                ex = (1 if d > 0 else -1) * max(abs(d) - tt, 0)
+                if abs(Fr(O[i][j]) - ex) > rel * scale:
+                    return (f'permuted-diagonal input: out[{i},{j}] = {O[i][j]!r}, exact '
+                            f'sign(d)·max(|d| − γλ, 0) = {float(ex)!r}')
+    elif nz and all(Fr(A[i][j]) * Fr(A[i2][j2]) == Fr(A[i][j2]) * Fr(A[i2][j])
+                    for i in range(r) for i2 in range(i + 1, r) for j in range(c) for j2 in range(j + 1, c)):
+        s1 = hp_sqrt(sum(Fr(x) * Fr(x) for x in flat))
+        f = max(1 - tt / s1, 0)
+        for i in range(r):
+            for j in range(c):
+                if abs(Fr(O[i][j]) - Fr(A[i][j]) * f) > rel * scale:
+                    return (f'rank-one input: out[{i},{j}] = {O[i][j]!r}, exact A·max(1 − γλ/‖A‖_F, 0) = '
+                            f'{float(Fr(A[i][j]) * f)!r}')
+    # (4) returned value = λ‖out‖_*
+    nn = nuc_norm(O)
+    if abs(value - lam * nn) > rel * max(lam * scale, abs(value)):
+        return f'returned value {value!r} ≠ λ‖out‖_* = {lam * nn!r}'
+    # (5) sanity: φ(out) ≤ φ(out + δ) for pseudo-random perturbations (seeded by the op line)
+    if r * c:
+        import zlib
+        prng = __import__('random').Random(zlib.crc32(op.encode()))
+
+        def phi(M):
+            return lam * nuc_norm(M) + math.fsum((M[i][j] - A[i][j]) ** 2 for i in range(r) for j in range(c)) / (2 * γ)
+        p0 = phi(O)
+        for _ in range(3):
+            mag = scale * 10.0 ** prng.uniform(-6, 0)
+            D = [[O[i][j] + mag * prng.uniform(-1, 1) for j in range(c)] for i in range(r)]
+            p1 = phi(D)
+            if p0 > p1 + 1e-9 * max(abs(p0), abs(p1), 1e-300):
+                return f'out is not a minimiser: φ(out) = {p0!r} > φ(out + δ) = {p1!r} (|δ| ≤ {mag:.3g})'
+    return None
+
+
 # ---------------------------------------------------------------- monitors (property on real code)
 
 def monitor(op, out, st):
     """Recompute in exact rational arithmetic what the property promises; compare with the real
     code's output up to a few ulps of the operands (never a tolerance-sized amount)."""
-    if out in ('exception', 'bad-op'):
+    if out in ('exception', 'bad-op') and not op.startswith('nuc '):
         return f'unexpected {out}'
     t = T(op)
-    o = T(out)
     kind = t.tok()
+    if kind in ('cl1s', 'cl1v'):
+        return monitor_cplx(kind, t, out)
+    if kind == 'nuc':
+        return monitor_nuc(op, t, out)
+    o = T(out)
     if kind in ('pgs', 'inact'):
         l1 = t.vec(); γ = t.flt(); x = t.vec(); g = t.vec(); lb = t.vec(); ub = t.vec()
         n = len(x)
@@ -289,15 +626,75 @@ def nontrivial(op, out):
     return None
 
 
+def impl_view(h):
+    """What is compared bit for bit with the model: everything before ` # ` (after it: values the
+    model does not reproduce bit-exactly — h of the complex norm (hypot) — or the oracle log)."""
+    return h.split(' # ')[0]
+
+
+def driver_input(op, h):
+    """The nuclear-norm model is run on the SVD the real code computed (logged by the harness)."""
+    if not op.startswith('nuc '):
+        return op
+    t = op.split()
+    head = t[2:6]                      # λ γ rows cols
+    a = ' '.join(t[6:])
+    main, _, tail = h.partition(' # ')
+    if main.startswith('Z '):
+        return f'nucpost {" ".join(head)} {a} 0 0 0'
+    if main.startswith('S ') and tail.startswith('1 '):
+        return f'nucpost {" ".join(head)} {a} {tail[2:]}'
+    return 'echo ' + main             # crash / no U,V: nothing to model (reported by the monitor)
+
+
+def extra_stage(rep, broken, exe, tier):
+    """Compile probe: the shipped L1NormComplex::prox must instantiate without the harness shim."""
+    obj, log = C.compile_obj(os.path.join(C.VERIF, 'harness', 'c15_probe_cplx.cpp'))
+    rep.cov['l1normcomplex_compiles_unshimmed'] = obj is not None
+    if obj is None:
+        errs = [l.strip() for l in log.splitlines() if 'error' in l][:2]
+        rep.violation('L1NormComplex::prox (functions/l1-norm.hpp) does not compile for either weight type: '
+                      'norm_1 requires ColsAtCompileTime == 1 but is called on rcmat / a cwiseProduct of it; the '
+                      'shipped complex ℓ1 prox cannot be instantiated (harness runs it through a norm_1 shim). '
+                      + ' | '.join(e[-220:] for e in errs),
+                      {'probe': 'harness/c15_probe_cplx.cpp', 'errors': errs}, True, key=KEY_CPLX_COMPILE)
+    else:
+        rep.note('L1NormComplex::prox instantiates without the harness shim')
+
+
+def replay(r):
+    """`checks/replay.py <file>`: re-run the recorded op through the real code, the model, the monitor."""
+    op = (r.get('payload') or {}).get('op')
+    if not op:
+        print('replay: no input recorded:', r.get('what'))
+        return 1
+    exe, log = C.build_exe('c15', [os.path.join(C.VERIF, 'harness', 'c15.cpp')])
+    if exe is None:
+        print(log[-2000:])
+        return 1
+    h, _, _ = C.run_lines(exe, [op])
+    print('impl :', h[0] if h else None)
+    dexe = C.driver_exe('drv_c15')
+    if h and os.path.exists(dexe):
+        d, _, _ = C.run_lines(dexe, [driver_input(op, h[0])])
+        print('model:', d[0] if d else None)
+        print('correspondence:', 'agree' if d and impl_view(h[0]).strip() == d[0].strip() else 'DIFFER')
+    m = monitor(op, h[0], {}) if h else 'no output'
+    print('monitor:', m or 'quiet')
+    return 1 if m else 0
+
+
 if __name__ == '__main__':
     sys.exit(C.standard_check(
         'C15', sys.argv,
         gen_scripts=['gen_c15.py'], modules=['Alpaqa.Props.C15'], driver='drv_c15',
-        extra_sources=['Alpaqa/Model/C15.lean', 'Alpaqa/Gen/C15.lean', 'Alpaqa/Proofs/Basic.lean',
-                       'Alpaqa/Model/Vec.lean', 'Alpaqa/Model/Scalar.lean'],
+        extra_sources=['Alpaqa/Model/C15.lean', 'Alpaqa/Model/C15Base.lean', 'Alpaqa/Gen/C15.lean',
+                       'Alpaqa/Proofs/Basic.lean', 'Alpaqa/Proofs/C15Lemmas.lean', 'Alpaqa/Proofs/C15Cplx.lean',
+                       'Alpaqa/Model/Vec.lean', 'Alpaqa/Model/Scalar.lean', 'Driver/C15.lean'],
         harness_name='c15', harness_sources=[os.path.join(C.VERIF, 'harness', 'c15.cpp')],
         gen_ops=gen_ops, monitor=monitor, nontrivial=nontrivial,
-        n_quick=3000, n_thorough=60000,
+        driver_input=driver_input, impl_view=impl_view, extra_stage=extra_stage,
+        n_quick=4000, n_thorough=60000,
         trusted_base=[
             'Lean 4.33 kernel + Mathlib (axioms: propext, Classical.choice, Quot.sound)',
             'gen/cxxparse.py + gen/lean_emit.py + gen/gen_c15.py (translator: componentwise Eigen '
